@@ -165,3 +165,109 @@ def rule_bool_is_not_a_number(ctx, rep, rid: str) -> None:
                 rep.ok(rid, key)
             else:
                 rep.bad(rid, key, f"{f.qual} returns `{v}` unchanged when {num_test[0]} holds, without excluding booleans first: true/false are passed through as numbers-that-are-booleans (e.g. `true | false` yields a boolean, `typeof` says 'boolean')", f"{f.module.rel}:{r.lineno}")
+
+
+# ---- host truthiness is not ToBoolean for NaN -----------------------------------------------------------
+def _float_excluded(call: ast.Call, f, ctx) -> bool:
+    """Is the operand of bool(x) known not to be a float (or not NaN) at the call?"""
+    arg = call.args[0]
+    a = norm(arg)
+    for t, pol in guards_of(call, f.node):
+        for x in ast.walk(t):
+            if isinstance(x, ast.Call) and norm(x.func) == "isinstance" and len(x.args) == 2 and norm(x.args[0]) == a and pol:
+                names = [norm(e) for e in (x.args[1].elts if isinstance(x.args[1], ast.Tuple) else [x.args[1]])]
+                if "float" not in names:
+                    return True
+            if isinstance(x, ast.Compare) and pol and len(x.ops) == 1:
+                l, r = norm(x.left), norm(x.comparators[0])
+                if l == f"type({a})" and isinstance(x.ops[0], (ast.Is, ast.Eq)) and r != "float":
+                    return True
+                if l == f"type({a})" and isinstance(x.ops[0], ast.In):
+                    members = _resolve_type_set(x.comparators[0], f, ctx)
+                    if members is not None and "float" not in members:
+                        return True
+                if l == a and r == a and isinstance(x.ops[0], ast.Eq):
+                    return True  # x == x: not NaN
+            if isinstance(x, ast.Call) and norm(x.func) in ("is_nan", "math.isnan") and x.args and norm(x.args[0]) == a and not pol:
+                return True
+    return False
+
+
+def _resolve_type_set(e: ast.AST, f, ctx) -> Optional[List[str]]:
+    if isinstance(e, (ast.Tuple, ast.List, ast.Set)):
+        return [norm(x) for x in e.elts]
+    if isinstance(e, ast.Name):
+        for n in f.module.tree.body:
+            if isinstance(n, ast.Assign) and any(isinstance(t, ast.Name) and t.id == e.id for t in n.targets):
+                v = n.value
+                if isinstance(v, ast.Call) and norm(v.func) in ("frozenset", "set", "tuple") and v.args:
+                    v = v.args[0]
+                if isinstance(v, (ast.Tuple, ast.List, ast.Set)):
+                    return [norm(x) for x in v.elts]
+    return None
+
+
+def rule_host_truthiness(ctx, rep, rid: str) -> None:
+    """Python's bool(float('nan')) is True; ToBoolean(NaN) is false.  Script values are tested for truth through
+    the engine's to_boolean; a host bool() is only right where the operand cannot be a float."""
+    rep.rule(rid, "the truth of a script value is decided by the engine's ToBoolean: no host bool() is applied to an operand that may be a float (bool(NaN) is True), and each conditional-jump / logical-not handler converts the popped value with to_boolean or a helper all of whose results come from it", floor=3)
+    ctl = ast.parse("def f(v):\n    if type(v) in (bool, int, float, str):\n        return bool(v)\n    return to_boolean(v)\n")
+    for x in ast.walk(ctl):
+        for c in ast.iter_child_nodes(x):
+            c._parent = x  # type: ignore[attr-defined]
+
+    class _M:
+        tree = ctl
+
+    class _F:
+        node = ctl.body[0]
+        module = _M
+
+    c0 = next(n for n in ast.walk(ctl) if isinstance(n, ast.Call) and norm(n.func) == "bool")
+    if _float_excluded(c0, _F, ctx):
+        raise AnalysisError("positive control failed: bool() of a possibly-float operand not recognised")
+    n_bool = 0
+    for f in ctx.tree.funcs:
+        if f.module.name not in ("vm", "context", "values") or isinstance(f.node, ast.Lambda):
+            continue
+        for n in f.own_nodes():
+            if isinstance(n, ast.Call) and isinstance(n.func, ast.Name) and n.func.id == "bool" and len(n.args) == 1 and not isinstance(n.args[0], ast.Constant):
+                n_bool += 1
+                key = f"{f.qual}:bool({short(n.args[0], 30)})"
+                if _float_excluded(n, f, ctx):
+                    rep.ok(rid, key)
+                else:
+                    rep.bad(rid, key, f"{f.qual} converts {norm(n.args[0])} with the host's bool(): for a float operand bool(NaN) is True although ToBoolean(NaN) is false (`NaN ? 1 : 2`, `NaN || x`, `if (0/0)` take the wrong branch)", f"{f.module.rel}:{n.lineno}")
+    rep.ok(rid, "host-bool-conversions", {"examined": n_bool})
+    # the handlers that branch on a popped value
+    df, chain = ctx.facts.vm_dispatcher()
+    n_h = 0
+    for names, body, ifnode in chain.branches:
+        line = ifnode.lineno
+        if not any(x in names for x in ("JUMP_IF_FALSE", "JUMP_IF_TRUE", "NOT")):
+            continue
+        n_h += 1
+        key = f"{df.qual}:{'/'.join(names)}:truth-test"
+        tests = [n for s_ in body for n in ast.walk(s_) if isinstance(n, ast.Call) and any(isinstance(a, ast.Call) and norm(a.func).endswith("stack.pop") for a in n.args)]
+        tests += [n for s_ in body for n in ast.walk(s_) if isinstance(n, ast.Call) and norm(n.func) == "to_boolean"]
+        ok = False
+        why = "no conversion call found"
+        for t in tests:
+            fn = norm(t.func)
+            if fn == "to_boolean":
+                ok = True
+                break
+            cs = ctx.cg.site_of_call.get(id(t))
+            if cs is not None and cs.kind == "resolved" and cs.targets:
+                g = cs.targets[0]
+                rets = [r.value for r in g.own_nodes() if isinstance(r, ast.Return) and r.value is not None]
+                if rets and all(isinstance(r, ast.Call) and norm(r.func) in ("to_boolean", "bool") for r in rets):
+                    ok = True  # bool() results are judged above
+                    break
+                why = f"{g.qual} returns something other than a ToBoolean result"
+        if ok:
+            rep.ok(rid, key)
+        else:
+            rep.bad(rid, key, f"the {'/'.join(names)} handler does not decide through to_boolean ({why})", f"{df.module.rel}:{line}")
+    if n_h < 2:
+        raise AnalysisError("conditional-jump handlers not found in the dispatcher")
